@@ -9,6 +9,9 @@ pub mod c02;
 pub mod c03;
 pub mod c04;
 pub mod c05;
+pub mod c06;
+pub mod c06b;
+pub mod c08;
 pub mod c09;
 pub mod c10;
 pub mod c11;
@@ -28,6 +31,8 @@ pub fn run(prop: &str, ctx: &mut Ctx) -> bool {
         "C03" => c03::run(ctx),
         "C04" => c04::run(ctx),
         "C05" => c05::run(ctx),
+        "C06" => c06::run(ctx),
+        "C08" => c08::run(ctx),
         "C09" => c09::run(ctx),
         "C10" => c10::run(ctx),
         "C11" => c11::run(ctx),
@@ -51,6 +56,8 @@ pub fn replay(prop: &str, case: &Value) -> Option<Vec<Failure>> {
         "C03" => c03::replay(case),
         "C04" => c04::replay(case),
         "C05" => c05::replay(case),
+        "C06" => c06::replay(case),
+        "C08" => c08::replay(case),
         "C09" => c09::replay(case),
         "C10" => c10::replay(case),
         "C11" => c11::replay(case),
